@@ -1,6 +1,6 @@
 from ..jobs import CH
 from ._util import tjobs, window
-from ..spec.templates import ALL
+from ..spec.templates import ALL, WITH_LETS
 
 H = "vf.harness.c14"
 META = {
@@ -45,10 +45,12 @@ def jobs(tier):
             fx = {"mask": mask, "o1": 0}
             if not mask:
                 fx["o0"] = 0
+            if mask and t not in WITH_LETS:
+                continue        # nothing to override
             if q and mask and t == "t_slice_let":
                 continue        # with the quick window every override of the alias bound invalidates the alias
             out.extend(tjobs(f"{H}:c14_pipeline", t, tier, fixed=fx, extra_params=ep, extra_pre=pre, timeout=400 if q else 1500,
-                             shrink=(window(t, tier, 1 if not mask else 0, wide=(["i"] if t not in ("t_macro_sub", "t_blocks") else [])) if q else None),
+                             shrink=(window(t, tier, 1 if (not mask or t == 't_regsize_let') else 0, wide=(["i"] if t not in ("t_macro_sub", "t_blocks") else [])) if q else None),
                              functions=["Builder.build", "Builder.build_array_item", "Builder.add_to_context", "Builder.get_gate_definition", "AbstractGate.call",
                                         "Parameter.validate", "fill_in_let", "expand_macros", "GateReplacer.visit_NamedQubit", "run_jaqal_circuit"],
                              note=f"{t} over the native gate set, override mask {mask}: if the reference finds a reference that cannot be honoured, some stage up to "
